@@ -24,7 +24,7 @@ ASSUMPTIONS = [
     "the first point may be counted as k=0 or k=1: first emitted index accepted in [20, 2^16]; the draw log must show the start requested from exactly [20, 2^16)",
     "grid-level comparison skips reference points within 1e-9 of a cell mid-point",
 ]
-REQUIRED_COUNTERS = {"halton_points": 1500, "prime_tables": 20, "sampler_objects": 40, "split_sequences": 40, "rseq_points": 400, "start_draws_logged": 40}
+REQUIRED_COUNTERS = {"cursor_placed_near_boundary": 10, "halton_points": 1500, "prime_tables": 20, "sampler_objects": 40, "split_sequences": 40, "rseq_points": 400, "start_draws_logged": 40}
 SHARDS = {"quick": 8, "thorough": 16}
 
 
@@ -179,6 +179,14 @@ def run_case(desc, ctx):
                 if not mode:
                     twin = HaltonSampler(batch_size=1, random_state=seed)
             w["construction"] = ["ctor(seed)", "ctor(other); reseed", "ctor(None); reseed"][mode]
+            forced = None
+            if rng.random() < 0.35:
+                # the quantifier covers start indices up to 2^16 + 2^12: place the cursor of both objects just below a boundary
+                forced = int(rng.choice([2**16, 2**16 + 2**12, 2**15, 2**16 + 1000])) - int(rng.integers(1, sum(sizes) + 1))
+                s1._sequence_index = forced
+                twin._sequence_index = forced
+                w["cursor_placed_at"] = forced
+                c["cursor_placed_near_boundary"] = c.get("cursor_placed_near_boundary", 0) + 1
             c["sampler_objects"] = c.get("sampler_objects", 0) + 1
             ints = [e for e in log.events if e[0] == "integers"]
             c["start_draws_logged"] = c.get("start_draws_logged", 0) + len(ints)
@@ -202,8 +210,10 @@ def run_case(desc, ctx):
             if i0 is None or float(radical_inverse(i0, 2)) != got[0, 0]:
                 bad(f"first coordinate {got[0, 0]!r} is not a base-2 radical inverse", w)
                 continue
-            if not (20 <= i0 <= 2**16):
+            if forced is None and not (20 <= i0 <= 2**16):
                 bad(f"first emitted index {i0} outside [20, 2^16]", w)
+            if forced is not None and i0 != forced + 1:
+                bad(f"cursor placed at {forced} but the first emitted index is {i0}", w)
             for k in range(len(got)):
                 ref = np.array([float(radical_inverse(i0 + k, bb)) for bb in bases])
                 cell = ref * 2**20
@@ -219,7 +229,7 @@ def run_case(desc, ctx):
             with quiet():
                 s3 = HaltonSampler(batch_size=sizes[0], random_state=seed)
                 a = s3.sample(space, np.zeros((0, d)), np.zeros(0))
-                if mode == 0 and not np.array_equal(a, parts[0]):
+                if mode == 0 and forced is None and not np.array_equal(a, parts[0]):
                     bad("two samplers constructed with the same seed start at different indices", w)
         return out
 
